@@ -70,18 +70,30 @@ Definition low_eq_frame (m : Z) (f1 f2 : frame) : Prop :=
 Definition low_eq (m : Z) (c1 c2 : ctx) : Prop := Forall2 (low_eq_frame m) c1 c2.
 
 (* ---- well-formed values ---------------------------------------------------------------------
-   go-cty never nests a mark directly under a mark (Value.Mark / WithMarks merge the sets), and
-   neither does the evaluator model (with_marks merges).  [wfb v]: no [VMark _ (VMark _ _)]
-   anywhere in v.  The operations look through exactly one layer of marks (unmark) or through all
-   of them (type_of), so their behaviour on doubly marked values is an artefact of the model. *)
+   The data-structure invariants of go-cty values:
+   (1) a mark set is never empty, and there is no mark directly under a mark (Value.Mark /
+       WithMarks merge the sets; with_marks merges and never attaches an empty set).
+       The operations look through exactly one layer of marks (unmark) or through all of them
+       (type_of), so their behaviour on doubly marked values is an artefact of the model;
+   (2) well-typed collections: every element of a list / set of element type t, and every value
+       of a map of element type t, has type t (cty.ListVal etc. enforce it).
+   [wfb v]: both hold everywhere in v. *)
+Definition is_nilm (ms : marks) : bool := match ms with [] => true | _ => false end.
 Fixpoint wfb (v : val) : bool :=
   match v with
-  | VMark _ x => negb (is_mark x) && wfb x
-  | VList _ l | VSet _ l | VTuple l => forallb wfb l
-  | VMap _ l | VObj l => forallb (fun p => wfb (snd p)) l
+  | VMark ms x => negb (is_nilm ms) && (negb (is_mark x) && wfb x)
+  | VList t l | VSet t l => forallb (fun x => ty_eqb (type_of x) t && wfb x) l
+  | VTuple l => forallb wfb l
+  | VMap t l => forallb (fun p => ty_eqb (type_of (snd p)) t && wfb (snd p)) l
+  | VObj l => forallb (fun p => wfb (snd p)) l
   | _ => true
   end.
 Definition wf (v : val) : Prop := wfb v = true.
+Lemma wf_mark_inv ms x : wf (VMark ms x) -> ms <> [] /\ is_mark x = false /\ wf x.
+Proof.
+  unfold wf. cbn [wfb]. intro H. apply andb_true_iff in H as [A H]. apply andb_true_iff in H as [B C].
+  apply negb_true_iff in B. split; [|split; assumption]. destruct ms; [discriminate A|discriminate].
+Qed.
 Definition wf_opt (a : option val) : Prop := match a with Some v => wf v | None => True end.
 Definition wf_ctx (c : ctx) : Prop :=
   forall fr vs k v, In fr c -> fvars fr = Some vs -> In (k, v) vs -> wf v.
@@ -117,6 +129,57 @@ Section ValInd.
     | VMark ms x => Hmark ms x (val_ind' x)
     end.
 End ValInd.
+
+(* ---- types: induction principle and decidable equality ------------------------------------------ *)
+Section TyInd.
+  Variable P : ty -> Prop.
+  Hypothesis HStr : P TStr.
+  Hypothesis HNum : P TNum.
+  Hypothesis HBool : P TBool.
+  Hypothesis HDyn : P TDyn.
+  Hypothesis HList : forall t, P t -> P (TList t).
+  Hypothesis HSet : forall t, P t -> P (TSet t).
+  Hypothesis HMap : forall t, P t -> P (TMap t).
+  Hypothesis HTuple : forall ts, Forall P ts -> P (TTuple ts).
+  Hypothesis HObj : forall fs, Forall (fun p => P (snd p)) fs -> P (TObj fs).
+  Fixpoint ty_ind' (t : ty) : P t :=
+    match t with
+    | TStr => HStr | TNum => HNum | TBool => HBool | TDyn => HDyn
+    | TList x => HList x (ty_ind' x)
+    | TSet x => HSet x (ty_ind' x)
+    | TMap x => HMap x (ty_ind' x)
+    | TTuple ts =>
+        HTuple ts ((fix go (l : list ty) : Forall P l :=
+                      match l with [] => Forall_nil _ | x :: r => Forall_cons x (ty_ind' x) (go r) end) ts)
+    | TObj fs =>
+        HObj fs ((fix go (l : list (list Z * ty)) : Forall (fun p => P (snd p)) l :=
+                    match l with [] => Forall_nil _ | x :: r => Forall_cons x (ty_ind' (snd x)) (go r) end) fs)
+    end.
+End TyInd.
+
+Lemma str_eqb_eq a b : str_eqb a b = true <-> a = b.
+Proof. apply zlist_eqb_eq. Qed.
+
+Lemma ty_eqb_eq : forall a b, ty_eqb a b = true <-> a = b.
+Proof.
+  induction a as [| | | |x IH|x IH|x IH|ts IH|fs IH] using ty_ind'; intros b; destruct b;
+    simpl; try (split; [reflexivity || discriminate | reflexivity || discriminate]).
+  - rewrite IH. split; congruence.
+  - rewrite IH. split; congruence.
+  - rewrite IH. split; congruence.
+  - revert ts0. induction IH as [|x r Hx _ IHr]; intros [|y ys]; simpl;
+      try (split; [reflexivity || discriminate | reflexivity || discriminate]).
+    rewrite andb_true_iff, Hx. specialize (IHr ys). split.
+    + intros [E1 E2]. apply IHr in E2. congruence.
+    + intros E. injection E as E1 E2. split; [assumption|]. apply IHr. congruence.
+  - revert fs0. induction IH as [|[k x] r Hx _ IHr]; intros [|[k' y] ys]; simpl;
+      try (split; [reflexivity || discriminate | reflexivity || discriminate]).
+    simpl in Hx. rewrite !andb_true_iff, Hx, str_eqb_eq. specialize (IHr ys). split.
+    + intros [[E0 E1] E2]. apply IHr in E2. congruence.
+    + intros E. injection E as E0 E1 E2. split; [split; assumption|]. apply IHr. congruence.
+Qed.
+Lemma ty_eqb_refl a : ty_eqb a a = true.
+Proof. apply ty_eqb_eq. reflexivity. Qed.
 
 (* ---- marks ------------------------------------------------------------------------------ *)
 Lemma mark_mem_insert m x l : mark_mem m (mark_insert x l) = (m =? x) || mark_mem m l.
